@@ -66,14 +66,19 @@ pub fn decode(t: &mut Tape) -> NetCase {
     let pats = ["||x.com^", "||sub.x.com^", "/page", "*", "|https://", "||y.org^", "/page.html|"];
     let dirs = ["script-src 'none'", "script-src 'self'", "img-src *", "worker-src 'none'", "default-src 'self'; report-uri /r", "frame-src 'none'"];
     let mut rules = vec![];
-    for _ in 0..(1 + t.pick(10)) {
+    let nrules = if t.chance(1, 30) { 20 + t.pick(120) } else { 1 + t.pick(10) };
+    for k in 0..nrules {
         let p = t.choose(&pats);
         let ex = t.chance(1, 3);
         let mut opts = vec![];
         if ex && t.chance(1, 3) {
             opts.push("csp".to_string());
         } else {
-            opts.push(format!("csp={}", t.choose(&dirs)));
+            if nrules > 12 && t.chance(1, 2) {
+                opts.push(format!("csp=x-src d{}", k % 40));
+            } else {
+                opts.push(format!("csp={}", t.choose(&dirs)));
+            }
         }
         if t.chance(1, 4) {
             opts.push(t.choose(&["domain=site.org", "domain=~site.org", "3p", "1p", "important"]).to_string());
